@@ -428,7 +428,7 @@ static void run_case (char **lines, int n) {
 	{ struct sigaction sa; memset (&sa, 0, sizeof sa); sa.sa_handler = on_usr1; sigemptyset (&sa.sa_mask); sigaction (SIGUSR1, &sa, NULL); }
 	p_libsys_init_full (&vt);
 	for (int i = 0; i < nblk; i++) if (blks[i].tag == 0) baseline++;
-	alarm (15);                                     /* a history takes milliseconds; a hang (a lock kept, a lost hand-off) ends the case */
+	alarm (30);                                     /* a history takes milliseconds; a hang (a lock kept, a lost hand-off) ends the case */
 	for (int li = 0; li < n; li++) {
 		char w[9][32]; int nw;
 		memset (w, 0, sizeof w);
